@@ -995,6 +995,8 @@ class Interp(object):
         if c is not None and fv.key in self.active_contracts and \
                 self.under_verification != (fv.key, self.call_depth == 0):
             return c.apply_at_call(self, vals, site)
+        for h in self.call_hooks:
+            h(self, fv, vals)
         env = Env(fv.closure, fv.module, fv)
         env.vars.update(vals)
         if fv.is_generator:
